@@ -93,9 +93,15 @@ RootSeqs(d) == {<<r>> : r \in In(d)}
 
 Next ==
     \/ \E d \in Doms : \E p \in In(d) \cup {Null} : \E b \in BuildersOf(Shapes) : Insert(d, p, b)
-    \/ \E d \in Doms : \E p \in In(d) \cup {Null} : \E b \in BuildersOf(Shapes) : \E k \in {1, Len(b)} : \E c \in In(d) :
-          InsertCollide(d, p, b, k, c)
-    \/ \E d \in Doms : \E kind \in RootKinds \cup MissingKinds : \E r \in Refs \cup {Null} : BadCall(kind, d, r)
+    \* (one representative choice of parent, colliding instance and missing referent: these steps add transitions,
+    \*  not states - what they do to a DOM is a prefix of an Insert or nothing at all)
+    \/ \E d \in Doms : \E b \in BuildersOf({<<0, 1>>}) : \E k \in {1, 2} :
+          /\ In(d) # {}
+          /\ LET c == CHOOSE x \in In(d) : \A y \in In(d) : x <= y IN InsertCollide(d, c, b, k, c)
+    \/ \E d \in Doms : \E kind \in RootKinds : BadCall(kind, d, IF root[d] \in Refs THEN root[d] ELSE Null)
+    \/ \E d \in Doms : \E kind \in MissingKinds :
+          /\ Refs \ In(d) # {}
+          /\ BadCall(kind, d, CHOOSE x \in Refs \ In(d) : \A y \in Refs \ In(d) : x <= y)
     \/ \E d \in Doms : \E r \in In(d) : Destroy(d, r)
     \/ \E d \in Doms : \E r \in In(d) : \E e \in Doms : \E p \in In(e) : Transfer(d, r, e, p)
     \/ \E d \in Doms : \E r \in In(d) : \E p \in In(d) : TransferWithin(d, r, p)
